@@ -53,3 +53,25 @@
           (=> (> j 0) (= (lenc2$ a k j h d c)
                  (benc (benc (lenc2$ a k (- j 1) h d c) (select (select a (+ (sl.off k) (- j 1))) 0) d c) (select (select a (+ (sl.off k) (- j 1))) 1) d c))))
      :pattern ((lenc2_unfold$ a k j h d c)))))
+; ---- merge of per-group replies back into request order (C07) ----
+; kfirst(g, k) : the least index of g holding the string k, or -1 when g does not hold it
+; (a definition by description: the least such index exists and is unique, so the axiom is satisfiable)
+; sig kfirst$ : (Array Int Str) Slice Str -> Int
+(declare-fun kfirst$ ((Array Int Str) Slice Str) Int)
+(assert (forall ((a (Array Int Str)) (g Slice) (k Str))
+  (! (or (and (= (kfirst$ a g k) (- 1))
+              (forall ((j Int)) (! (=> (and (<= 0 j) (< j (sl.len g))) (not (= (elem!Str a g j) k))) :pattern ((elem!Str a g j)))))
+         (and (<= 0 (kfirst$ a g k)) (< (kfirst$ a g k) (sl.len g))
+              (= (elem!Str a g (kfirst$ a g k)) k)
+              (forall ((j Int)) (! (=> (and (<= 0 j) (< j (kfirst$ a g k))) (not (= (elem!Str a g j) k))) :pattern ((elem!Str a g j))))))
+     :pattern ((kfirst$ a g k)))))
+; lcat(e, j, hdr) : hdr followed by e[0], ..., e[j-1], associated the way the merge loop appends them
+; sig lcat : (Array Int Str) Int Str -> Str
+; sig lcat_unfold : (Array Int Str) Int Str -> Bool
+(declare-fun lcat ((Array Int Str) Int Str) Str)
+(assert (forall ((e (Array Int Str)) (h Str)) (! (= (lcat e 0 h) h) :pattern ((lcat e 0 h)))))
+(declare-fun lcat_unfold ((Array Int Str) Int Str) Bool)
+(assert (forall ((e (Array Int Str)) (j Int) (h Str))
+  (! (and (lcat_unfold e j h)
+          (=> (> j 0) (= (lcat e j h) (s_cat (lcat e (- j 1) h) (select e (- j 1))))))
+     :pattern ((lcat_unfold e j h)))))
